@@ -23,6 +23,7 @@ included), the words being parsed by the representation's own `parse_word`.
 options + memo entries); `Rep.GuardOK` is its invariant (`precomputed_guard_sound`).
 -/
 import GT.Lemmas.RepAut
+import GT.Lemmas.RepAutFreeWords
 
 set_option linter.unusedSectionVars false
 
@@ -220,6 +221,15 @@ theorem labelOK_single (ρ : Rep n R) (o : AccOpts) (he : o.edgeWords = false)
     (h1 : ∀ g ∈ ρ.gens.map Prod.fst, ∃ c : Char, g = String.ofList [c]) : LabelOK ρ o :=
   Rep.labelOK_of_single ρ o he h1
 
+/-- "edge labels read as words or as single generators": what each mode looks up for a label -/
+theorem edgeElt_words (ρ : Rep n R) (o : AccOpts) (h : o.edgeWords = true) (l : String) :
+    ρ.edgeElt o l = ρ.wordValueS l := by
+  unfold Rep.edgeElt; rw [h]; rfl
+
+theorem edgeElt_single (ρ : Rep n R) (o : AccOpts) (h : o.edgeWords = false) (l : String) :
+    ρ.edgeElt o l = ρ.gen l := by
+  unfold Rep.edgeElt; rw [h]; rfl
+
 /-! ## the returned words are the accepted words, once per accepting path -/
 
 /-- from a start state: words of all paths of length `= L` (`maxlen=False`) / `≤ L` (`maxlen=True`) -/
@@ -321,6 +331,24 @@ theorem freelyReducedElements_spec (ρ : Rep n R) (L : Nat) (maxlen : Bool) (res
     List.Forall₂ (fun s M => ρ.value (parseWord true s) = .ok (DMat.toMatrix M))
       res.words res.mats :=
   Rep.freelyReducedElements_spec ρ L maxlen res hp h hok hs
+
+/-- `free_words_of_length(k)` yields exactly the freely reduced words of length `k` over the stored
+letters (one-character generator names), each once -/
+theorem freeWordsOfLength_spec (ρ : Rep n R) (hs : SingleChar (ρ.gens.map Prod.fst))
+    (hnd : (ρ.gens.map Prod.fst).Nodup) (k : Nat) :
+    (ρ.freeWordsOfLength k).Nodup ∧ ∀ s, s ∈ ρ.freeWordsOfLength k ↔ s.length = k ∧
+      (∀ g ∈ parseWord true s, g ∈ ρ.gens.map Prod.fst) ∧
+      simplifyWord invertGen (parseWord true s) = parseWord true s :=
+  ⟨Rep.freeWordsOfLength_nodup ρ hs hnd k, fun s => Rep.freeWordsOfLength_mem ρ hs k s⟩
+
+/-- `free_words_less_than(L)` yields exactly the freely reduced words of length `< L` (what the code
+does; the docstring's "inclusive" is wrong), each once -/
+theorem freeWordsLessThan_spec (ρ : Rep n R) (hs : SingleChar (ρ.gens.map Prod.fst))
+    (hnd : (ρ.gens.map Prod.fst).Nodup) (L : Nat) :
+    (ρ.freeWordsLessThan L).Nodup ∧ ∀ s, s ∈ ρ.freeWordsLessThan L ↔ s.length < L ∧
+      (∀ g ∈ parseWord true s, g ∈ ρ.gens.map Prod.fst) ∧
+      simplifyWord invertGen (parseWord true s) = parseWord true s :=
+  ⟨Rep.freeWordsLessThan_nodup ρ hs hnd L, fun s => Rep.freeWordsLessThan_mem ρ hs L s⟩
 
 /-! ## non-vacuity (concrete automaton `0 -a→ 1 -a→ 1 -b→ 0`, `SL(2,ℤ)` matrices) -/
 
